@@ -2,4 +2,5 @@ pub mod dd;
 pub mod fl;
 pub mod int;
 pub mod mon;
+pub mod refm;
 pub mod rng;
